@@ -17,8 +17,8 @@ LEVEL = 'exploration'
 RULE = (
     'Finite lattice: every subset of 2..5 (thorough: 2..7) knots of a '
     '7-point level menu x 5 conductivity patterns spanning 1e-3..1e4 '
-    '(rising, flat, falling, zig-zag, steep) x minimum transmissivity in '
-    '{1e-3, 7.442, 1e3}; levels: far below, just below, first knot, two '
+    '(rising, flat, falling, zig-zag, steep, one flat segment below others) '
+    'x minimum transmissivity in {1e-3, 7.442, 1e3, integer 7}; levels: far below, just below, first knot, two '
     'points inside each segment, each knot, last knot; each evaluated as a '
     'scalar, inside a list and inside an ndarray through the real '
     'SplineTransmissivity.  Oracle: closed form T_min + sum over segments '
@@ -38,13 +38,15 @@ PATTERNS = {
     'falling': lambda i, n: 10.0 ** (4 - 7.0 * i / max(n - 1, 1)),
     'zigzag': lambda i, n: (0.005356, 6577.0)[i % 2] * (1 + 0.1 * i),
     'steep': lambda i, n: (1e-3, 1e-3, 1e4, 1e4, 1e-3, 1e4, 1e-3)[i],
+    'flat-then-rising': lambda i, n: (0.5, 0.5, 2.0, 2.0, 40.0, 900.0,
+                                      900.0)[i],
 }
-TMINS = [1e-3, 7.442, 1e3]
+TMINS = [1e-3, 7.442, 1e3, 7]     # the last one is an int, as YAML gives it
 _SETS = {}
 
 
 def BOUND(tier):
-    return ('%s knot subsets x 5 conductivity patterns x 3 minimum '
+    return ('%s knot subsets x 6 conductivity patterns x 4 minimum '
             'transmissivities x 3K+1 levels x {scalar, list, ndarray}'
             % ('2..5-element' if tier == 'quick' else '2..7-element'))
 
@@ -69,6 +71,12 @@ def run_case(case):
     K = [PATTERNS[case['pattern']](i, n) for i in range(n)]
     t_min = case['t_min']
     try:
+        # a different function built first: state kept between instances
+        # (caches, class attributes) must not leak into the one under test
+        t_mod.create_transmissivity_function(
+            {'type': 'spline', 'zeta_knots_mm': [k + 3.0 for k in knots],
+             'K_knots_km_d': [2.0 * k for k in K][::-1],
+             'minimum_transmissivity_m2_d': 2.5})(knots[-1])
         T = t_mod.create_transmissivity_function(
             {'type': 'spline', 'zeta_knots_mm': list(knots),
              'K_knots_km_d': list(K),
@@ -97,13 +105,13 @@ def run_case(case):
             if got != t_min:
                 viol.append(('not-minimum-below-first-knot',
                              'T(%r) = %r, minimum %r' % (z, got, t_min)))
-        elif abs(got - want) > 1e-7 * abs(want):
+        elif not abs(got - want) <= 1e-7 * abs(want):
             viol.append(('not-minimum-plus-integral',
                          'T(%r) = %r, T_min + integral of conductivity = %r '
                          '(knots %r K %r)' % (z, got, want, knots, K)))
     for (z0, a), (z1, b) in zip(zip(levels, scalars),
                                 zip(levels[1:], scalars[1:])):
-        if b < a - 1e-7 * abs(a):
+        if not b >= a - 1e-7 * abs(a):
             viol.append(('decreasing',
                          'T(%r) = %r > T(%r) = %r' % (z0, a, z1, b)))
     seen = set()
